@@ -147,7 +147,7 @@ func c07GenSched(r *vlib.Rng, nc, hasOp bool) []string {
 	return s
 }
 
-func b01(b bool) string {
+func c07b01(b bool) string {
 	if b {
 		return "1"
 	}
@@ -257,7 +257,7 @@ func runC07(c *ctx) {
 		if evs == "" {
 			evs = "."
 		}
-		lines = append(lines, fmt.Sprintf("c07 validate %s %d %s %s %s %s %s %s", b01(o.spec.NC), o.spec.Mode, b01(o.spec.Twice),
+		lines = append(lines, fmt.Sprintf("c07 validate %s %d %s %s %s %s %s %s", c07b01(o.spec.NC), o.spec.Mode, c07b01(o.spec.Twice),
 			initR, opO, initN, opW, evs))
 		idx = append(idx, i)
 	}
@@ -283,7 +283,7 @@ func runC07(c *ctx) {
 			kind = "natural:" + o.spec.Natural
 		}
 		res.Count("kind:" + kind)
-		res.Count(fmt.Sprintf("cfg:nc=%s,mode=%d,twice=%s,op=%s", b01(o.spec.NC), o.spec.Mode, b01(o.spec.Twice), b01(o.spec.HasOp)))
+		res.Count(fmt.Sprintf("cfg:nc=%s,mode=%d,twice=%s,op=%s", c07b01(o.spec.NC), o.spec.Mode, c07b01(o.spec.Twice), c07b01(o.spec.HasOp)))
 		res.InDomain++
 		key := cas
 		if m := model[i]; m != nil {
@@ -329,7 +329,7 @@ func runC07(c *ctx) {
 		bad := false
 		if hung >= 0 {
 			res.Fail("oracle", cas, fmt.Sprintf("Close call #%d did not return (%s); goroutines left: %v; events: %v", hung+1, kind, f.Alive, o.events),
-				fmt.Sprintf("hang:close#%d:nc=%s", hung+1, b01(o.spec.NC)))
+				fmt.Sprintf("hang:close#%d:nc=%s", hung+1, c07b01(o.spec.NC)))
 			res.Count("outcome:hang")
 			bad = true
 		} else {
